@@ -86,7 +86,7 @@ LOG = dict(BASE, params=dict(self='obj:CliqueVector'),
 
 # constructors over a list of cliques: one table per listed clique, on the domain projected onto that clique
 def _ctor(fn):
-    return dict(BASE, params=dict(domain='obj:Domain', cliques='obj:list'), pure={'Factor.%s' % fn: 'obj', '.project': 'obj'}, over='cliques',
+    return dict(BASE, params=dict(domain='obj:Domain', cliques='obj:list'), pure={'Factor.zeros': 'obj', 'Factor.ones': 'obj', 'Factor.uniform': 'obj', '.project': 'obj'}, over='cliques',
                 ensures={'exactly-the-listed-cliques': 'same_cliques_as_self(result)',
                          'clique-by-clique:%s-table-on-the-projected-domain' % fn: 'same(at_k(result), Factor.%s(domain.project(k())))' % fn})
 
